@@ -167,7 +167,10 @@ TraceLinear ==
        IF ~LinearInScope(e) THEN TRUE
        ELSE /\ Tally(13, TRUE) /\ Tally(14, Irregular(e))
             /\ Judge(~e.panic, "panic")
-            /\ Judge(e.panic \/ LinearOK(e), "linear")
+            \* finite knots in scope give finite coefficients, breakpoints and values: a NaN or an infinity is a wrong
+            \* answer (and must not reach the exact arithmetic below, which has no value for it)
+            /\ Judge(e.panic \/ ((\A j \in 1..Len(e.coef) : Finite(e.coef[j])) /\ Finite(e.ends)), "non-finite coefficient or breakpoint")
+            /\ Judge(e.panic \/ ~((\A j \in 1..Len(e.coef) : Finite(e.coef[j])) /\ Finite(e.ends)) \/ LinearOK(e), "linear")
 
 TraceNext == TraceSpline \/ TraceLinear
 =============================================================================
